@@ -65,7 +65,11 @@ PROPS = {
             "PROVED for all strings and all suppress lists: _is_suppressed_warning(type, subtype, S) is true iff some "
             "entry of S is `type`, `type.subtype` or `type.*` (the three documented spellings and nothing else), under "
             "the precondition that `type` contains no dot - loop invariant 'no earlier entry matches', discharged by "
-            "z3/cvc5.  PROVED by constant propagation at every call site of the warning API in myst_parser/ (one "
+            "z3/cvc5; create_warning on BOTH front ends (relative to the assumed reporter.warning / Sphinx logger): a warning whose "
+            "tag, bare type or `type.*` is listed yields NO node - None is returned and nothing is attached; any other "
+            "warning yields exactly one new system_message whose text is the message followed by `[type.subtype]`, attached "
+            "last to `append_to` when one is given, and no other node's children change; DocutilsRenderer.create_warning, the "
+            "renderers' entry point, is proved to be a pass-through to it with its own document (same contract).  PROVED by constant propagation at every call site of the warning API in myst_parser/ (one "
             "obligation per site): the (type, subtype) pair is ('myst', member of MystWarnings) or the documented "
             "('ref','footnote'); wtype is dot-free (discharges the precondition above); the result of create_warning is "
             "discarded, returned by a wrapper or used as `[x] if x else []` (a suppressed warning cannot skip building "
@@ -212,11 +216,13 @@ PROPS = {
     ),
     "C20": dict(
         level="other",
-        contracts=[],
+        contracts=["contracts.include"],
         flow=["checks.flow_frame:run"],
         harness=True,
         explanation=(
-            "PROVED on the AST: (file-read) every call of a file/URL reading API in the package is dominated, in its "
+            "PROVED (pyvc, prefix contract of MockIncludeDirective.run): execution passes the guard only when "
+            "settings.file_insertion_enabled holds, otherwise the directive raises its documented DirectiveError before the "
+            "first use of the file system.  PROVED on the AST: (file-read) every call of a file/URL reading API in the package is dominated, in its "
             "function, by the unconditional `if not ...file_insertion_enabled: raise` refusal at function entry, or is a "
             "listed configuration-driven read (fetch_inventory, the inventory CLI); (raw-removal) in Parser.parse, under "
             "`not raw_enabled`, every node of document.traverse(nodes.raw) is replaced by the direct result of "
